@@ -67,6 +67,13 @@ Faces == <<"", "\"bold\"", "\"fg=#ff0000,bg=#00ff0080\"", "\"fg=nocolor\"", "\"f
 Texts == <<"\"hello\"", "\"\"", "[]", "[\"a\",[\"b\",[\"c\"]]]", "5", "null", "true", "{}", "{\"text\":5}", "{\"glyph\":{}}", "{\"glyph\":{\"path\":\"M0,0 L1,1 Z\"},\"text\":\"ignored\"}",
            "{\"wraps\":\"yes\",\"text\":\"a\"}", "{\"wraps\":false,\"text\":\"a long line of text\"}", "[{\"face\":\"bold\",\"text\":[\"x\",{\"face\":\"italic\",\"text\":\"y\"}]}]",
            "\"tab\\there\\nnewline \\u0000 nul \\ud83e\\udd29\"" >>
+\* glyphs of extreme size inside a text (the text view measures every cell)
+HugeGlyph(h, w) == "{\"glyph\":{\"path\":\"M0,0 h1 v1 Z\",\"size\":" \o SizeOf(h, w) \o "}}"
+Text4 == [i \in 1..(Len(Nums) * 3) |->
+            LET n == Nums[((i - 1) % Len(Nums)) + 1]  k == (i - 1) \div Len(Nums)
+            IN Doc("text", IF k = 0 THEN "[\"a\"," \o HugeGlyph(n, n) \o ",\"b\"]"
+                           ELSE IF k = 1 THEN "[\"a\"," \o HugeGlyph("1", n) \o ",\"b\"," \o HugeGlyph(n, "2") \o "]"
+                           ELSE "{\"wraps\":false,\"text\":[\"ab\\n\"," \o HugeGlyph(n, "1") \o "," \o HugeGlyph("1", n) \o "]}")]
 Text1 == [i \in 1..(Len(Faces) * Len(Texts)) |-> Doc("text", Obj(<<<<"face", Faces[((i - 1) % Len(Faces)) + 1]>>, <<"text", Texts[((i - 1) \div Len(Faces)) + 1]>>>>))]
 Text2 == [i \in 1..Len(Texts) |-> Doc("text", Texts[i])]
 Depths == <<1, 10, 60, 120, 126>>
@@ -110,7 +117,7 @@ Views5 == [i \in 1..Len(Depths) |-> Doc("view", Nest("{\"type\":\"container\",\"
           \o [i \in 1..Len(Depths) |-> Doc("view", Nest("{\"type\":\"flex\",\"children\":[{\"flex\":1,\"view\":", Leaf, "}," \o Leaf \o "]}", Depths[i] \div 4))]
           \o [i \in 1..Len(Depths) |-> Doc("view", Nest("{\"type\":\"tag\",\"tag\":0,\"view\":", "{\"type\":\"container\",\"child\":" \o Leaf \o "}", "}", Depths[i] \div 2))]
           \o << Doc("view", "[]"), Doc("view", "null"), Doc("view", "\"text\""), Doc("view", "{\"type\":\"text\",\"type\":\"flex\",\"text\":\"x\"}") >>
-Vec == Images1 \o Images2 \o Images3 \o Images4 \o Glyphs1 \o Glyphs2 \o Glyphs3 \o Text1 \o Text2 \o Text3 \o Views1 \o Views2 \o Views2b \o Views3 \o Views4 \o Views5
+Vec == Images1 \o Images2 \o Images3 \o Images4 \o Glyphs1 \o Glyphs2 \o Glyphs3 \o Text1 \o Text2 \o Text3 \o Text4 \o Views1 \o Views2 \o Views2b \o Views3 \o Views4 \o Views5
 ASSUME ndJsonSerialize(IOEnv.OUT, Vec)
 ASSUME PrintT(<<"GENERATED", Len(Vec)>>)
 VARIABLE x
